@@ -1,5 +1,6 @@
 import HcipyVerif.Model.FftWeights
 import HcipyVerif.Model.Nft
+import HcipyVerif.Model.Multiplex
 import HcipyVerif.Model.Proto
 import HcipyVerif.Model.FftGrid
 import HcipyVerif.Model.FftIndex
@@ -320,6 +321,17 @@ def step (st : St) : List String → St × String
           w.length != (if fwd then n else m) || j ≥ (if fwd then n else m) then (st, "err value") else
       (st, "ok " ++ showPSums (nftImpulse fwd (path == "mat") xs us w j))
     | _, _, _, _ => (st, "bad-op")
+  | ["mux", dir, path, xss, uss, ws, tss, t, j] =>
+    match parseRatLists? xss, parseRatLists? uss, parseRatList? ws, parseNatList? tss, parseNat? t, parseNat? j with
+    | some xs, some us, some w, some ts, some t, some j =>
+      if (dir != "fwd" && dir != "bwd") || (path != "mat" && path != "fly") then (st, "bad-op") else
+      let n := (xs.headD []).length
+      let m := (us.headD []).length
+      let fwd := dir == "fwd"
+      if xs.isEmpty || xs.length != us.length || xs.any (·.length != n) || us.any (·.length != m) || n = 0 || m = 0 ||
+          w.length != (if fwd then n else m) || j ≥ (if fwd then n else m) || t ≥ tensorSize ts then (st, "err value") else
+      (st, "ok " ++ showPSums (multiplexNftImpulse fwd (path == "mat") xs us w ts t j))
+    | _, _, _, _, _, _ => (st, "bad-op")
   | ["load", sh, N, M, bufs, fs] =>
     match parseBool? sh, parseNat? N, parseNat? M, parseRatList? bufs, parseRatList? fs with
     | some sh, some N, some M, some buf, some f =>
